@@ -128,6 +128,9 @@ def sizes(tier, seed):
                 ([], v6[:2], [], [], (), [('ff3e::', 32)]),
                 (v4[:1], [], [], [], [('14.0.0.0', 8), ('14.1.0.0', 16)], ()),
                 ([], v6[:1], v4[:1], [], [('15.0.0.0', 8)], [('ff3e:1::', 48)]),
+                # IPv4 announces next to MP withdraws only (no MP announce): the announces keep their attributes
+                (v4[:2], [], [], v6[:2]),
+                (v4[:3], [], v4[3:4], v6[:1], (), [('ff3e::', 32)]),
                 # an IPv4 section which nearly fills the message, then MP announces and MP withdraws (these two shapes are
                 # where MP routes used to be dropped for lack of room beside what had been sent already)
                 (v4[:6], v6[:1], v4[6:9], []),
@@ -159,3 +162,83 @@ def _replay(f):
     i = f['input']
     conv = lambda l: [tuple(x) for x in l]
     return _case(i['msg_size'], i['padlen'], conv(i['v4']), conv(i['v6']), conv(i['w4']), conv(i['w6']), conv(i.get('v4nh6', [])), conv(i.get('w6m', [])), i.get('addpath', False)) is None
+
+
+# ---------------------------------------------------------------------------------------------------------------------
+# ONE attribute collection encoded for several sessions, one after the other (a route announced to all the neighbors of a
+# group): each session gets the encoding of ITS parameters -- AS width, iBGP / eBGP defaults -- whatever was packed before
+def _shared_case(order):
+    from exabgp.bgp.message.update.collection import UpdateCollection, RoutedNLRI
+    from exabgp.bgp.message.update.attribute import AttributeCollection
+    from exabgp.bgp.message.update.attribute.aspath import ASPath, SEQUENCE
+    from exabgp.bgp.message.update.attribute.nexthop import NextHop
+    from exabgp.bgp.message.update.attribute.origin import Origin
+    from exabgp.bgp.message.update.nlri.inet import INET
+    from exabgp.bgp.message.open.asn import ASN
+    from exabgp.protocol.family import AFI, SAFI
+    from exabgp.protocol.ip import IP, IPv4
+    from spec.update import decode_update
+
+    inp = {'session_order': list(order)}
+    attrs = AttributeCollection()
+    attrs.add(Origin.from_int(0) if hasattr(Origin, 'from_int') else Origin(bytes([0])))
+    attrs.add(ASPath.make_aspath([SEQUENCE([ASN(65010), ASN(4200000001)])], asn4=True))
+    nh4 = IPv4.from_string('1.2.3.4')
+    attrs.add(NextHop(nh4.pack_ip()))
+    routes = [RoutedNLRI(INET.make_route(AFI.ipv4, SAFI.unicast, IP.pton(f'10.{i}.0.0'), 16), nh4) for i in range(3)]
+    u = UpdateCollection(routes, [], attrs)
+    for kind in order:
+        neg = _neg(4096, [(AFI.ipv4, SAFI.unicast)])
+        neg.asn4 = kind.endswith('4')
+        neg.local_as = ASN(65000)
+        neg.peer_as = ASN(65000) if kind.startswith('ibgp') else ASN(65001)
+        try:
+            msgs = [bytes(m) for m in u.messages(neg)]
+        except Exception as e:  # noqa
+            return {'what': f'messages() raised {type(e).__name__}: {e} for the {kind} session', 'input': inp}
+        width = 4 if neg.asn4 else 2
+        seen = set()
+        for m in msgs:
+            d = decode_update(m)
+            by = {t: v for _f, t, v in d['attributes']}
+            path = by.get(2, b'')
+            # every segment must parse at THIS session's AS width, and end exactly at the end of the attribute
+            i, asns = 0, []
+            ok = True
+            while i < len(path):
+                if i + 2 > len(path) or i + 2 + path[i + 1] * width > len(path):
+                    ok = False
+                    break
+                asns += [int.from_bytes(path[i + 2 + k * width : i + 2 + (k + 1) * width], 'big') for k in range(path[i + 1])]
+                i += 2 + path[i + 1] * width
+            # the operator gave the path: it is sent as written (nothing is prepended), at this session's AS width
+            want = [65010, 4200000001] if neg.asn4 else [65010, 23456]
+            if not ok or asns != want:
+                return {'what': f'one attribute set sent on several sessions: the {kind} session (packed after {list(order)[: list(order).index(kind)]}) gets AS_PATH {path.hex()} -- read at {width} octets per AS: {asns if ok else "does not parse"}, expected {want}', 'input': inp}
+            has_lp = 5 in by
+            if has_lp != kind.startswith('ibgp'):
+                return {'what': f'one attribute set sent on several sessions: the {kind} session {"lacks" if not has_lp else "carries"} LOCAL_PREF', 'input': inp}
+            for pid, lab, rd, bits, body in d['nlri']:
+                seen.add(body)
+        if len(seen) != 3:
+            return {'what': f'the {kind} session does not announce the three routes ({len(seen)})', 'input': inp}
+    return None
+
+
+@bounded('C09', 'one-collection-several-sessions')
+def one_collection_several_sessions(tier, seed):
+    import itertools
+
+    kinds = ['ebgp4', 'ebgp2', 'ibgp4', 'ibgp2']
+    fails, evals = [], 0
+    for order in itertools.permutations(kinds, 2 if tier == 'quick' else 3):
+        evals += 1
+        f = _shared_case(order)
+        if f:
+            fails.append(f)
+    return {'evaluations': evals, 'distinct_nontrivial': evals, 'bound': 'one attribute collection (ORIGIN, AS_PATH with a 4-byte AS, NEXT_HOP) and three routes, packed by the real UpdateCollection.messages() for every ordered pair (thorough: triple) of eBGP / iBGP x 2- / 4-byte AS sessions: AS width, defaults and routes of each', 'rule': 'one case = one order of sessions', 'samples': [{'session_order': ['ebgp4', 'ebgp2']}], 'failures': fails}
+
+
+@replayer('C09', 'one-collection-several-sessions')
+def _replay_shared(f):
+    return _shared_case(tuple(f['input']['session_order'])) is None
